@@ -290,6 +290,9 @@ func (in *Interp) feasible(extra *Term) (Result, Model) {
 	r, m, err := in.solver.Check(as, in.inputs)
 	if err != nil {
 		in.ex.noteSolverError(err)
+		if d := os.Getenv("SYMGO_DUMP_UNKNOWN"); d != "" {
+			os.WriteFile(fmt.Sprintf("%s/error%d.smt2", d, len(as)), []byte(Standalone(as)), 0o644)
+		}
 		in.restartSolver()
 		return Unknown, nil
 	}
